@@ -12,6 +12,9 @@ def parseOp (j : Json) : Except String Op := do
   | "push_fn" => pure (.pushFunction n)
   | "push_bound" => pure (.pushBoundMethod n 0)
   | "push_builtin_bound" => pure (.pushBuiltinBound n)
+  | "push_builtin_fn" => pure (.pushBuiltinFunction n)
+  | "enter_context_aliased" => pure (.enterContextAliased n)
+  | "enter_async_context_aliased" => pure (.enterAsyncContextAliased n)
   | "callback" => pure (.callback n)
   | "enter_async_context" => pure (.enterAsyncContext n)
   | "push_async_exit_mgr" => pure (.pushAsyncExitManager n)
@@ -27,6 +30,7 @@ def showObj : ChildObj → String
   | .manager m => s!"m{m}"
   | .callable (.exitWrapper f) => s!"w{f}"
   | .callable (.plain f) => s!"f{f}"
+  | .callable (.builtinFunction f) => s!"f{f}"
   | .callable _ => "?"
 
 def showChild (c : Child) : String :=
